@@ -4,66 +4,126 @@ namespace GuppyVerif.EmuConfig
 
 open Spec
 
-theorem argsOf_append (heap extra : List Sim) (c : Inst) (h : c.sim < heap.length) :
-    argsOf (heap ++ extra) c = argsOf heap c := by
-  unfold argsOf
-  rw [List.getElem?_append_left h]
+/-- what `WF` says about one instance -/
+def RefsOK (heap : List Sim) (comps : List (Option Nat)) (c : Inst) : Prop :=
+  c.sim < heap.length ∧ c.runtime < comps.length ∧ c.errorModel < comps.length ∧ c.eventHook < comps.length
 
-theorem argsOf_isSome (heap : List Sim) (c : Inst) (h : c.sim < heap.length) :
-    (argsOf heap c).isSome = true := by
+theorem argsOf_append (heap extra : List Sim) (comps cx : List (Option Nat)) (c : Inst)
+    (h : RefsOK heap comps c) : argsOf (heap ++ extra) (comps ++ cx) c = argsOf heap comps c := by
+  obtain ⟨h1, h2, h3, h4⟩ := h
   unfold argsOf
-  rw [List.getElem?_eq_getElem h]; rfl
+  rw [List.getElem?_append_left h1, List.getElem?_append_left h2, List.getElem?_append_left h3,
+    List.getElem?_append_left h4]
 
-/-- the repaired `derive` only ever appends to the heap, the new instance refers to a live
-    object and keeps its origin -/
-theorem derive_fixed_heap (heap : List Sim) (c : Inst) (d : Deriv) (h' : List Sim) (c' : Inst)
-    (hc : c.sim < heap.length) (hd : derive true heap c d = some (h', c')) :
-    (∃ extra, h' = heap ++ extra) ∧ c'.sim < h'.length ∧ c'.origin = c.origin := by
+theorem argsOf_isSome (heap : List Sim) (comps : List (Option Nat)) (c : Inst) (h : RefsOK heap comps c) :
+    (argsOf heap comps c).isSome = true := by
+  obtain ⟨h1, h2, h3, h4⟩ := h
+  unfold argsOf
+  rw [List.getElem?_eq_getElem h1, List.getElem?_eq_getElem h2, List.getElem?_eq_getElem h3,
+    List.getElem?_eq_getElem h4]; rfl
+
+/-- the repaired `derive` only ever appends to the heap, the new instance refers to live
+    objects and keeps its origin -/
+theorem derive_fixed_heap (heap : List Sim) (comps : List (Option Nat)) (c : Inst) (d : Deriv)
+    (h' : List Sim) (c' : Inst) (hc : RefsOK heap comps c) (hd : derive true heap comps c d = some (h', c')) :
+    (∃ extra, h' = heap ++ extra) ∧ RefsOK h' comps c' ∧ c'.origin = c.origin := by
+  obtain ⟨h1, h2, h3, h4⟩ := hc
   cases d <;> simp only [derive] at hd
   case seed v =>
-    rw [List.getElem?_eq_getElem hc] at hd
+    rw [List.getElem?_eq_getElem h1] at hd
     simp only [↓reduceIte, Option.some.injEq, Prod.mk.injEq] at hd
     obtain ⟨rfl, rfl⟩ := hd
-    exact ⟨⟨_, rfl⟩, by simp, rfl⟩
+    exact ⟨⟨_, rfl⟩, ⟨by simp, h2, h3, h4⟩, rfl⟩
   case simulator sid =>
     split at hd
     · simp only [Option.some.injEq, Prod.mk.injEq] at hd
       obtain ⟨rfl, rfl⟩ := hd
-      exact ⟨⟨[], by simp⟩, by assumption, rfl⟩
+      exact ⟨⟨[], by simp⟩, ⟨by assumption, h2, h3, h4⟩, rfl⟩
+    · cases hd
+  case runtime r =>
+    split at hd
+    · simp only [Option.some.injEq, Prod.mk.injEq] at hd
+      obtain ⟨rfl, rfl⟩ := hd
+      exact ⟨⟨[], by simp⟩, ⟨h1, by assumption, h3, h4⟩, rfl⟩
+    · cases hd
+  case errorModel r =>
+    split at hd
+    · simp only [Option.some.injEq, Prod.mk.injEq] at hd
+      obtain ⟨rfl, rfl⟩ := hd
+      exact ⟨⟨[], by simp⟩, ⟨h1, h2, by assumption, h4⟩, rfl⟩
+    · cases hd
+  case eventHook r =>
+    split at hd
+    · simp only [Option.some.injEq, Prod.mk.injEq] at hd
+      obtain ⟨rfl, rfl⟩ := hd
+      exact ⟨⟨[], by simp⟩, ⟨h1, h2, h3, by assumption⟩, rfl⟩
     · cases hd
   all_goals
     simp only [Option.some.injEq, Prod.mk.injEq] at hd
     obtain ⟨rfl, rfl⟩ := hd
     first
-      | exact ⟨⟨[], by simp⟩, hc, rfl⟩
-      | exact ⟨⟨_, rfl⟩, by simp, rfl⟩
+      | exact ⟨⟨[], by simp⟩, ⟨h1, h2, h3, h4⟩, rfl⟩
+      | exact ⟨⟨_, rfl⟩, ⟨by simp, h2, h3, h4⟩, rfl⟩
+
+theorem RefsOK.mono {heap x : List Sim} {comps cx : List (Option Nat)} {c : Inst}
+    (h : RefsOK heap comps c) : RefsOK (heap ++ x) (comps ++ cx) c := by
+  obtain ⟨h1, h2, h3, h4⟩ := h
+  refine ⟨?_, ?_, ?_, ?_⟩ <;> simp only [List.length_append] <;> omega
 
 /-- every list of the state only grows -/
 structure Ext (s s' : State) : Prop where
   heap : ∃ x, s'.heap = s.heap ++ x
+  comps : ∃ x, s'.comps = s.comps ++ x
   insts : ∃ x, s'.insts = s.insts ++ x
   log : ∃ x, s'.log = s.log ++ x
   builders : ∃ x, s'.builders = s.builders ++ x
   blog : ∃ x, s'.blog = s.blog ++ x
 
 theorem Ext.refl (s : State) : Ext s s :=
-  ⟨⟨[], by simp⟩, ⟨[], by simp⟩, ⟨[], by simp⟩, ⟨[], by simp⟩, ⟨[], by simp⟩⟩
+  ⟨⟨[], by simp⟩, ⟨[], by simp⟩, ⟨[], by simp⟩, ⟨[], by simp⟩, ⟨[], by simp⟩, ⟨[], by simp⟩⟩
 
 theorem Ext.trans {a b c : State} (h₁ : Ext a b) (h₂ : Ext b c) : Ext a c := by
-  obtain ⟨⟨x1, e1⟩, ⟨x2, e2⟩, ⟨x3, e3⟩, ⟨x4, e4⟩, ⟨x5, e5⟩⟩ := h₁
-  obtain ⟨⟨y1, f1⟩, ⟨y2, f2⟩, ⟨y3, f3⟩, ⟨y4, f4⟩, ⟨y5, f5⟩⟩ := h₂
-  exact ⟨⟨x1 ++ y1, by rw [f1, e1, List.append_assoc]⟩, ⟨x2 ++ y2, by rw [f2, e2, List.append_assoc]⟩,
+  obtain ⟨⟨x1, e1⟩, ⟨x0, e0⟩, ⟨x2, e2⟩, ⟨x3, e3⟩, ⟨x4, e4⟩, ⟨x5, e5⟩⟩ := h₁
+  obtain ⟨⟨y1, f1⟩, ⟨y0, f0⟩, ⟨y2, f2⟩, ⟨y3, f3⟩, ⟨y4, f4⟩, ⟨y5, f5⟩⟩ := h₂
+  exact ⟨⟨x1 ++ y1, by rw [f1, e1, List.append_assoc]⟩, ⟨x0 ++ y0, by rw [f0, e0, List.append_assoc]⟩,
+    ⟨x2 ++ y2, by rw [f2, e2, List.append_assoc]⟩,
     ⟨x3 ++ y3, by rw [f3, e3, List.append_assoc]⟩, ⟨x4 ++ y4, by rw [f4, e4, List.append_assoc]⟩,
     ⟨x5 ++ y5, by rw [f5, e5, List.append_assoc]⟩⟩
 
+theorem WF_ext_old {s s' : State} (hw : WF s) (he : Ext s s') :
+    s'.comps[0]? = some none ∧ ∀ c ∈ s.insts, RefsOK s'.heap s'.comps c ∧ ∀ o, c.origin = some o → o < s'.blog.length := by
+  obtain ⟨x, hx⟩ := he.heap
+  obtain ⟨cx, hcx⟩ := he.comps
+  obtain ⟨bx, hbx⟩ := he.blog
+  refine ⟨?_, fun c hc => ?_⟩
+  · have h0 : 0 < s.comps.length := by
+      have := hw.1; exact (List.getElem?_eq_some_iff.mp this).1
+    rw [hcx, List.getElem?_append_left h0]; exact hw.1
+  · obtain ⟨r, o⟩ := hw.2 c hc
+    rw [hx, hcx, hbx]
+    exact ⟨RefsOK.mono r, fun k hk => by have := o k hk; simp only [List.length_append]; omega⟩
+
 theorem step_fixed (s s' : State) (op : Op) (hw : WF s) (hs : step true s op = some s') :
     WF s' ∧ Ext s s' := by
+  have key : ∀ (he : Ext s s'), (∀ c ∈ s'.insts, c ∈ s.insts ∨
+      (RefsOK s'.heap s'.comps c ∧ ∀ o, c.origin = some o → o < s'.blog.length)) → WF s' ∧ Ext s s' := by
+    intro he hn
+    obtain ⟨h0, hold⟩ := WF_ext_old hw he
+    refine ⟨⟨h0, fun c hc => ?_⟩, he⟩
+    rcases hn c hc with h | h
+    · exact hold c h
+    · exact h
   cases op with
   | newSim k sd =>
     simp only [step, Option.some.injEq] at hs
     subst hs
-    refine ⟨?_, ⟨⟨_, rfl⟩, ⟨[], by simp⟩, ⟨[], by simp⟩, ⟨[], by simp⟩, ⟨[], by simp⟩⟩⟩
-    intro c hc; have := hw c hc; exact ⟨by simp; omega, this.2⟩
+    exact key ⟨⟨_, rfl⟩, ⟨[], by simp⟩, ⟨[], by simp⟩, ⟨[], by simp⟩, ⟨[], by simp⟩, ⟨[], by simp⟩⟩
+      (fun c hc => Or.inl hc)
+  | newComp sd =>
+    simp only [step, Option.some.injEq] at hs
+    subst hs
+    exact key ⟨⟨[], by simp⟩, ⟨_, rfl⟩, ⟨[], by simp⟩, ⟨[], by simp⟩, ⟨[], by simp⟩, ⟨[], by simp⟩⟩
+      (fun c hc => Or.inl hc)
   | derive i d =>
     simp only [step] at hs
     cases hi : s.insts[i]? with
@@ -71,19 +131,19 @@ theorem step_fixed (s s' : State) (op : Op) (hw : WF s) (hs : step true s op = s
     | some c =>
       simp only [hi] at hs
       have hcm : c ∈ s.insts := List.mem_of_getElem? hi
-      cases hd : derive true s.heap c d with
+      cases hd : derive true s.heap s.comps c d with
       | none => simp [hd] at hs
       | some r =>
         obtain ⟨h', c'⟩ := r
         simp only [hd, Option.some.injEq] at hs
         subst hs
-        obtain ⟨⟨extra, he⟩, hc', ho⟩ := derive_fixed_heap s.heap c d h' c' (hw c hcm).1 hd
-        refine ⟨?_, ⟨⟨extra, he⟩, ⟨[c'], rfl⟩, ⟨[], by simp⟩, ⟨[], by simp⟩, ⟨[], by simp⟩⟩⟩
+        obtain ⟨⟨extra, he⟩, hc', ho⟩ := derive_fixed_heap s.heap s.comps c d h' c' (hw.2 c hcm).1 hd
+        refine key ⟨⟨extra, he⟩, ⟨[], by simp⟩, ⟨[c'], rfl⟩, ⟨[], by simp⟩, ⟨[], by simp⟩, ⟨[], by simp⟩⟩ ?_
         intro x hx
         simp only [List.mem_append, List.mem_singleton] at hx
         rcases hx with hx | rfl
-        · have := hw x hx; exact ⟨by simp only [he, List.length_append]; omega, this.2⟩
-        · exact ⟨hc', by rw [ho]; exact (hw c hcm).2⟩
+        · exact Or.inl hx
+        · exact Or.inr ⟨hc', by rw [ho]; exact (hw.2 c hcm).2⟩
   | run i =>
     simp only [step] at hs
     cases hv : view s i with
@@ -91,7 +151,8 @@ theorem step_fixed (s s' : State) (op : Op) (hw : WF s) (hs : step true s op = s
     | some a =>
       simp only [hv, Option.some.injEq] at hs
       subst hs
-      exact ⟨hw, ⟨⟨[], by simp⟩, ⟨[], by simp⟩, ⟨_, rfl⟩, ⟨[], by simp⟩, ⟨[], by simp⟩⟩⟩
+      exact key ⟨⟨[], by simp⟩, ⟨[], by simp⟩, ⟨[], by simp⟩, ⟨_, rfl⟩, ⟨[], by simp⟩, ⟨[], by simp⟩⟩
+        (fun c hc => Or.inl hc)
   | bderive i d =>
     simp only [step] at hs
     cases hb : s.builders[i]? with
@@ -99,7 +160,8 @@ theorem step_fixed (s s' : State) (op : Op) (hw : WF s) (hs : step true s op = s
     | some b =>
       simp only [hb, Option.some.injEq] at hs
       subst hs
-      exact ⟨hw, ⟨⟨[], by simp⟩, ⟨[], by simp⟩, ⟨[], by simp⟩, ⟨_, rfl⟩, ⟨[], by simp⟩⟩⟩
+      exact key ⟨⟨[], by simp⟩, ⟨[], by simp⟩, ⟨[], by simp⟩, ⟨[], by simp⟩, ⟨_, rfl⟩, ⟨[], by simp⟩⟩
+        (fun c hc => Or.inl hc)
   | build i n =>
     simp only [step] at hs
     cases hb : s.builders[i]? with
@@ -107,22 +169,24 @@ theorem step_fixed (s s' : State) (op : Op) (hw : WF s) (hs : step true s op = s
     | some b =>
       simp only [hb, Option.some.injEq] at hs
       subst hs
-      refine ⟨?_, ⟨⟨_, rfl⟩, ⟨_, rfl⟩, ⟨[], by simp⟩, ⟨[], by simp⟩, ⟨_, rfl⟩⟩⟩
+      refine key ⟨⟨_, rfl⟩, ⟨[], by simp⟩, ⟨_, rfl⟩, ⟨[], by simp⟩, ⟨[], by simp⟩, ⟨_, rfl⟩⟩ ?_
       intro x hx
       simp only [List.mem_append, List.mem_singleton] at hx
       rcases hx with hx | rfl
-      · have := hw x hx
-        exact ⟨by simp; omega, fun o ho => by have := this.2 o ho; simp; omega⟩
-      · exact ⟨by simp [defaultInst], fun o ho => by simp [defaultInst] at ho; subst ho; simp⟩
+      · exact Or.inl hx
+      · have h0 : 0 < s.comps.length := (List.getElem?_eq_some_iff.mp hw.1).1
+        exact Or.inr ⟨⟨by simp [defaultInst], h0, h0, h0⟩,
+          fun o ho => by simp [defaultInst] at ho; subst ho; simp⟩
 
 theorem view_stable (s s' : State) (hw : WF s) (he : Ext s s') (j : Nat)
     (hj : j < s.insts.length) : view s' j = view s j := by
   obtain ⟨extra, hh⟩ := he.heap
+  obtain ⟨cx, hc⟩ := he.comps
   obtain ⟨more, hi⟩ := he.insts
   unfold view
-  rw [hi, List.getElem?_append_left hj, hh]
+  rw [hi, List.getElem?_append_left hj, hh, hc]
   rw [List.getElem?_eq_getElem hj]
-  exact argsOf_append _ _ _ (hw _ (List.getElem_mem hj)).1
+  exact argsOf_append _ _ _ _ _ (hw.2 _ (List.getElem_mem hj)).1
 
 theorem originArgs_stable (s s' : State) (hw : WF s) (he : Ext s s') (j : Nat)
     (hj : j < s.insts.length) : originArgs s' j = originArgs s j := by
@@ -133,7 +197,7 @@ theorem originArgs_stable (s s' : State) (hw : WF s) (he : Ext s s') (j : Nat)
   cases ho : (s.insts[j]).origin with
   | none => simp only [ho]
   | some o =>
-    have := (hw _ (List.getElem_mem hj)).2 o ho
+    have := (hw.2 _ (List.getElem_mem hj)).2 o ho
     simp only [ho, hb, List.getElem?_append_left this]
 
 theorem bview_stable (s s' : State) (he : Ext s s') (j : Nat) (hj : j < s.builders.length) :
@@ -172,6 +236,8 @@ theorem step_logOK (s s' : State) (op : Op) (hw : WF s) (hl : LogOK s) (hs : ste
   cases op with
   | newSim k sd =>
     simp only [step, Option.some.injEq] at hs; subst hs; exact old
+  | newComp sd =>
+    simp only [step, Option.some.injEq] at hs; subst hs; exact old
   | derive i d =>
     have hlog : s'.log = s.log := by
       simp only [step] at hs
@@ -179,7 +245,7 @@ theorem step_logOK (s s' : State) (op : Op) (hw : WF s) (hl : LogOK s) (hs : ste
       | none => simp [h1] at hs
       | some c =>
         simp only [h1] at hs
-        cases h2 : derive true s.heap c d with
+        cases h2 : derive true s.heap s.comps c d with
         | none => simp [h2] at hs
         | some r => simp only [h2, Option.some.injEq] at hs; subst hs; rfl
     intro e hel; rw [hlog] at hel; exact old e hel
@@ -233,28 +299,28 @@ theorem view_isSome (s : State) (hw : WF s) (j : Nat) (hj : j < s.insts.length) 
     (view s j).isSome = true := by
   unfold view
   rw [List.getElem?_eq_getElem hj]
-  exact argsOf_isSome _ _ (hw _ (List.getElem_mem hj)).1
+  exact argsOf_isSome _ _ _ (hw.2 _ (List.getElem_mem hj)).1
 
 /-- one derivation step seen by value (parent's view ↦ child's view), origin inherited -/
 theorem derive_step_pure (s s' : State) (i : Nat) (d : Deriv) (hw : WF s)
     (hs : step true s (.derive i d) = some s') :
-    view s' s.insts.length = (view s i).bind (fun a => applyD (fun k => s.heap[k]?) a d) ∧
+    view s' s.insts.length =
+      (view s i).bind (fun a => applyD (fun k => s.heap[k]?) (fun k => s.comps[k]?) a d) ∧
     originArgs s' s.insts.length = originArgs s i ∧ i < s.insts.length := by
-  have hs0 := hs
   simp only [step] at hs
   cases hi : s.insts[i]? with
   | none => simp [hi] at hs
   | some c =>
     have hil : i < s.insts.length := (List.getElem?_eq_some_iff.mp hi).1
-    have hc : c.sim < s.heap.length := (hw c (List.mem_of_getElem? hi)).1
+    obtain ⟨hc, h2, h3, h4⟩ := (hw.2 c (List.mem_of_getElem? hi)).1
     simp only [hi] at hs
-    cases hd : derive true s.heap c d with
+    cases hd : derive true s.heap s.comps c d with
     | none => simp [hd] at hs
     | some r =>
       obtain ⟨h', c'⟩ := r
       simp only [hd, Option.some.injEq] at hs
       subst hs
-      obtain ⟨_, _, ho⟩ := derive_fixed_heap s.heap c d h' c' hc hd
+      obtain ⟨_, _, ho⟩ := derive_fixed_heap s.heap s.comps c d h' c' ⟨hc, h2, h3, h4⟩ hd
       refine ⟨?_, ?_, hil⟩
       · simp only [view, hi, List.getElem?_concat_length]
         cases d <;> simp only [derive] at hd
@@ -262,42 +328,85 @@ theorem derive_step_pure (s s' : State) (i : Nat) (d : Deriv) (hw : WF s)
           rw [List.getElem?_eq_getElem hc] at hd
           simp only [↓reduceIte, Option.some.injEq, Prod.mk.injEq] at hd
           obtain ⟨rfl, rfl⟩ := hd
-          simp [argsOf, List.getElem?_eq_getElem hc, applyD]
+          simp [argsOf, List.getElem?_eq_getElem hc, List.getElem?_eq_getElem h2,
+            List.getElem?_eq_getElem h3, List.getElem?_eq_getElem h4, applyD]
         case simulator sid =>
           split at hd
           · rename_i hsid
             simp only [Option.some.injEq, Prod.mk.injEq] at hd
             obtain ⟨rfl, rfl⟩ := hd
-            simp [argsOf, List.getElem?_eq_getElem hc, List.getElem?_eq_getElem hsid, applyD]
+            simp [argsOf, List.getElem?_eq_getElem hc, List.getElem?_eq_getElem hsid,
+              List.getElem?_eq_getElem h2, List.getElem?_eq_getElem h3, List.getElem?_eq_getElem h4, applyD]
+          · cases hd
+        case runtime r =>
+          split at hd
+          · rename_i hr
+            simp only [Option.some.injEq, Prod.mk.injEq] at hd
+            obtain ⟨rfl, rfl⟩ := hd
+            simp [argsOf, List.getElem?_eq_getElem hc, List.getElem?_eq_getElem hr,
+              List.getElem?_eq_getElem h2, List.getElem?_eq_getElem h3, List.getElem?_eq_getElem h4, applyD]
+          · cases hd
+        case errorModel r =>
+          split at hd
+          · rename_i hr
+            simp only [Option.some.injEq, Prod.mk.injEq] at hd
+            obtain ⟨rfl, rfl⟩ := hd
+            simp [argsOf, List.getElem?_eq_getElem hc, List.getElem?_eq_getElem hr,
+              List.getElem?_eq_getElem h2, List.getElem?_eq_getElem h3, List.getElem?_eq_getElem h4, applyD]
+          · cases hd
+        case eventHook r =>
+          split at hd
+          · rename_i hr
+            simp only [Option.some.injEq, Prod.mk.injEq] at hd
+            obtain ⟨rfl, rfl⟩ := hd
+            simp [argsOf, List.getElem?_eq_getElem hc, List.getElem?_eq_getElem hr,
+              List.getElem?_eq_getElem h2, List.getElem?_eq_getElem h3, List.getElem?_eq_getElem h4, applyD]
           · cases hd
         all_goals
           simp only [Option.some.injEq, Prod.mk.injEq] at hd
           obtain ⟨rfl, rfl⟩ := hd
-          simp [argsOf, List.getElem?_eq_getElem hc, applyD]
+          simp [argsOf, List.getElem?_eq_getElem hc, List.getElem?_eq_getElem h2,
+            List.getElem?_eq_getElem h3, List.getElem?_eq_getElem h4, applyD]
       · simp only [originArgs, hi, List.getElem?_concat_length, ho]
 
-theorem applyD_look_ext (heap x : List Sim) (a r : RunArgs) (d : Deriv)
-    (h : applyD (fun k => heap[k]?) a d = some r) : applyD (fun k => (heap ++ x)[k]?) a d = some r := by
+theorem lookup_ext {α : Type} (l x : List α) (k : Nat) (v : α) (h : l[k]? = some v) :
+    (l ++ x)[k]? = some v := by
+  rw [List.getElem?_append_left (List.getElem?_eq_some_iff.mp h).1]; exact h
+
+theorem applyD_look_ext (heap x : List Sim) (comps cx : List (Option Nat)) (a r : RunArgs) (d : Deriv)
+    (h : applyD (fun k => heap[k]?) (fun k => comps[k]?) a d = some r) :
+    applyD (fun k => (heap ++ x)[k]?) (fun k => (comps ++ cx)[k]?) a d = some r := by
   cases d <;> simp only [applyD] at h ⊢ <;> try exact h
   case simulator sid =>
     cases hk : heap[sid]? with
     | none => simp [hk] at h
-    | some v =>
-      have hl : sid < heap.length := (List.getElem?_eq_some_iff.mp hk).1
-      rw [List.getElem?_append_left hl, hk]; rw [hk] at h; exact h
+    | some v => rw [lookup_ext heap x sid v hk]; rw [hk] at h; exact h
+  case runtime k =>
+    cases hk : comps[k]? with
+    | none => simp [hk] at h
+    | some v => rw [lookup_ext comps cx k v hk]; rw [hk] at h; exact h
+  case errorModel k =>
+    cases hk : comps[k]? with
+    | none => simp [hk] at h
+    | some v => rw [lookup_ext comps cx k v hk]; rw [hk] at h; exact h
+  case eventHook k =>
+    cases hk : comps[k]? with
+    | none => simp [hk] at h
+    | some v => rw [lookup_ext comps cx k v hk]; rw [hk] at h; exact h
 
-theorem foldD_look_ext (heap x : List Sim) (ds : List Deriv) : ∀ (a r : RunArgs),
-    foldD (fun k => heap[k]?) a ds = some r → foldD (fun k => (heap ++ x)[k]?) a ds = some r := by
+theorem foldD_look_ext (heap x : List Sim) (comps cx : List (Option Nat)) (ds : List Deriv) :
+    ∀ (a r : RunArgs), foldD (fun k => heap[k]?) (fun k => comps[k]?) a ds = some r →
+      foldD (fun k => (heap ++ x)[k]?) (fun k => (comps ++ cx)[k]?) a ds = some r := by
   induction ds with
   | nil => intro a r h; exact h
   | cons d ds ih =>
     intro a r h
     simp only [foldD] at h ⊢
-    cases ha : applyD (fun k => heap[k]?) a d with
+    cases ha : applyD (fun k => heap[k]?) (fun k => comps[k]?) a d with
     | none => simp [ha] at h
     | some a' =>
       simp only [ha] at h
-      rw [applyD_look_ext heap x a a' d ha]
+      rw [applyD_look_ext heap x comps cx a a' d ha]
       exact ih a' r h
 
 /-- following an instance derivation path (with arbitrary operations in between): the final
@@ -305,7 +414,8 @@ theorem foldD_look_ext (heap x : List Sim) (ds : List Deriv) : ∀ (a r : RunArg
 theorem chainD_pure (path : List (List Op × Deriv)) : ∀ (s sf : State) (i j : Nat) (a : RunArgs),
     WF s → i < s.insts.length → view s i = some a → chainD s i path = some (sf, j) →
     WF sf ∧ Ext s sf ∧ j < sf.insts.length ∧
-    (∃ r, view sf j = some r ∧ foldD (fun k => sf.heap[k]?) a (path.map (·.2)) = some r) ∧
+    (∃ r, view sf j = some r ∧
+      foldD (fun k => sf.heap[k]?) (fun k => sf.comps[k]?) a (path.map (·.2)) = some r) ∧
     originArgs sf j = originArgs s i := by
   induction path with
   | nil =>
@@ -337,7 +447,7 @@ theorem chainD_pure (path : List (List Op × Deriv)) : ∀ (s sf : State) (i j :
           | none => simp [hq] at this
           | some c =>
             simp only [hq] at this
-            cases hd : derive true s₁.heap c d with
+            cases hd : derive true s₁.heap s₁.comps c d with
             | none => simp [hd] at this
             | some r => simp only [hd, Option.some.injEq] at this; subst this; simp
         rw [hv₁] at p1
@@ -351,8 +461,9 @@ theorem chainD_pure (path : List (List Op × Deriv)) : ∀ (s sf : State) (i j :
           refine ⟨hwf, (e₁.trans e₂).trans ef, hj, ⟨r, hr1, ?_⟩, ?_⟩
           · simp only [List.map_cons, foldD]
             obtain ⟨x, hx⟩ := (e₂.trans ef).heap
-            rw [hx, applyD_look_ext s₁.heap x a a₂ d p1.symm]
-            rw [← hx]; exact hr2
+            obtain ⟨cx, hcx⟩ := (e₂.trans ef).comps
+            rw [hx, hcx, applyD_look_ext s₁.heap x s₁.comps cx a a₂ d p1.symm]
+            rw [← hx, ← hcx]; exact hr2
           · rw [ho, p2]; exact originArgs_stable s s₁ hw e₁ i hi
 
 /-- one builder derivation seen by value -/
@@ -407,7 +518,7 @@ theorem chainB_pure (path : List (List Op × BDeriv)) : ∀ (s sf : State) (i j 
         exact ⟨hwf, (e₁.trans e₂).trans ef, hj, by simpa using hr⟩
 
 /-- `build`: the new instance shows the defaults and remembers the builder's by-value arguments -/
-theorem build_step_pure (s s' : State) (i n : Nat) (hs : step true s (.build i n) = some s') :
+theorem build_step_pure (s s' : State) (i n : Nat) (hw : WF s) (hs : step true s (.build i n) = some s') :
     view s' s.insts.length = some (defaultArgs n) ∧
     originArgs s' s.insts.length = (bview s i).map some ∧ i < s.builders.length := by
   simp only [step] at hs
@@ -417,7 +528,7 @@ theorem build_step_pure (s s' : State) (i n : Nat) (hs : step true s (.build i n
     simp only [hb, Option.some.injEq] at hs
     subst hs
     refine ⟨?_, ?_, (List.getElem?_eq_some_iff.mp hb).1⟩
-    · simp [view, argsOf, defaultInst, defaultArgs]
+    · simp [view, argsOf, defaultInst, defaultArgs, hw.1]
     · simp [originArgs, defaultInst, bview, hb]
 
 end GuppyVerif.EmuConfig
